@@ -185,6 +185,9 @@ type vBuilder struct {
 	sizes   map[string]int
 	nextIds []string
 	built   int
+	// strict: with verification asked for, the raw bytes must be exactly the ones registered under the id
+	// (all zero) - the stand-in for "the id is the hash of the bytes and the signature covers them"
+	strict bool
 }
 
 func newVBuilder() *vBuilder {
@@ -212,6 +215,16 @@ func (b *vBuilder) Unmarshall(raw *treechangeproto.RawTreeChangeWithId, verify b
 	p, ok := b.table[raw.Id]
 	if !ok {
 		return nil, errors.New("verif: unknown raw change")
+	}
+	if b.strict && verify {
+		if len(raw.RawChange) != b.sizes[raw.Id] {
+			return nil, ErrIncorrectCid
+		}
+		for _, c := range raw.RawChange {
+			if c != 0 {
+				return nil, ErrIncorrectCid
+			}
+		}
 	}
 	return vCopyChange(p), nil
 }
